@@ -191,6 +191,9 @@ def fingerprint(specs) -> dict:
                 ):
                     nxt = ch
                     break
+                if isinstance(ch, ast.AnnAssign) and isinstance(ch.target, ast.Name) and ch.target.id == part:
+                    nxt = ch
+                    break
             if nxt is None:
                 found = False
                 break
